@@ -137,7 +137,7 @@ func genScript(r *rand.Rand, id string, nops int, profile string) Script {
 				st.How = pick(r, "discard", "fail", "discard-read")
 			}
 			if r.Float64() < misuseP {
-				s.Steps = append(s.Steps, Step{Op: "misuse", How: pick(r, "readonly", "afterdiscard", "emptykey", "commit2", "closed"),
+				s.Steps = append(s.Steps, Step{Op: "misuse", How: pick(r, "readonly", "afterdiscard", "emptykey", "commit2", "closed", "emptycommit", "afterconflict"),
 					Puts: [][2]int{{1 + r.Intn(s.NKeys), 700000 + i}}})
 			}
 			for j := 0; j < n; j++ {
@@ -366,6 +366,41 @@ func (r *runner) step(step Step) error {
 			r.c.Discard()
 			r.c.Get(k)
 			r.c.Commit()
+		case "emptycommit":
+			// an update transaction committed without writes is finished like any other
+			r.c.Begin(true)
+			r.c.Get(k)
+			r.c.Commit()
+			r.c.Put(k, v)
+			r.c.Put(k, 0)
+			r.c.Commit()
+			r.c.Discard()
+		case "afterconflict":
+			// a refused transaction stays finished, also after the conflicting commit has been forgotten
+			base := 800000 + (v-700000)*10
+			k2 := 1 + k%r.s.NKeys
+			vic := r.st.Sess(2)
+			vic.Begin(true)
+			vic.Get(k)
+			r.c.Begin(true)
+			r.c.Put(k, base)
+			if r.c.Commit() == "ok" {
+				r.res.Commits++
+			}
+			vic.Put(k2, base+1)
+			vic.Commit()
+			for i := 0; i < 3; i++ {
+				r.c.Begin(true)
+				r.c.Put(k, base+2+i)
+				if r.c.Commit() == "ok" {
+					r.res.Commits++
+				}
+				r.readAll()
+			}
+			vic.Put(k2, base+6)
+			vic.Put(k, 0)
+			vic.Commit()
+			vic.Discard()
 		case "closed":
 			r.drain()
 			r.st.Close()
